@@ -196,6 +196,8 @@ def events():
         "claim1": wire.claim_packet(1, wire.iso_name(unique=5)),
         "bad": wire.ebyte_packet(wire.can_id(2, 127250, 1, 255), bytes.fromhex("00ffff7f7f7f7ffd")),
     }
+    # a message with text outside ASCII (the dump file has to hold it as written by to_json)
+    ev["text"] = ("acti", wire.actisense_line(6, 255, 1, 126998, payloads.lau("w\u00f3rld \u6e2f", False) + payloads.lau("Hi") + bytes([6, 1]) + "\u00e9\u00fc".encode("utf-8")))
     fr = wire.fast_frames(3, bytes([0x02, 0x00]) + bytes(range(10, 17)))
     ident = wire.can_id(3, 130816, 4, 255)
     ev["f0"] = wire.ebyte_packet(ident, fr[0])
@@ -242,15 +244,15 @@ def run_dump(cfg, hist, path, evs, extra="plain"):
     try:
         for name in hist:
             try:
-                m = dec.decode_tcp(evs[name])
+                m = dec.decode_actisense_string(evs[name][1]) if isinstance(evs[name], tuple) else dec.decode_tcp(evs[name])
             except Exception:  # noqa: BLE001
                 m = None
             if m is not None:
                 returned.append(m)
     finally:
         dec.close()
-    with open(path) as f:
-        content = f.read()
+    with open(path, "rb") as f:
+        content = f.read().decode("utf-8", errors="replace")
     return returned, content
 
 
@@ -394,7 +396,7 @@ def run(ctx):
         "rule": "(a) one case per payload of the k=1 enumeration over all definitions, every third one decoded with a source identity "
                 "attached; non-trivial = a field off base. (b) one run per (dump filter, history); non-trivial = at least two messages returned",
         "samples": samples, "part_a": a, "part_b": dict(b, filter_configurations=len(cfgs), history_depth=depth),
-        "bound_completed": f"(a) <=1 deviating field from 5 bases{', <=2 from base mid, every raw of fields <= 8 bits' if ctx.thorough else ''}; (b) all histories up to {depth} events over an 8-event alphabet x {len(cfgs)} filters; (e) bases mid and max of every definition through 6 entry points, with and without identity",
+        "bound_completed": f"(a) <=1 deviating field from 5 bases{', <=2 from base mid, every raw of fields <= 8 bits' if ctx.thorough else ''}; (b) all histories up to {depth} events over a 9-event alphabet x {len(cfgs)} filters; (e) bases mid and max of every definition through 6 entry points, with and without identity",
         "exhaustive": True,
     }
     return {"coverage": cov, "violations": vios,
